@@ -195,13 +195,18 @@ impl ErrorDisplay for PrettyPrint {
 /// Print lints as JSON
 pub struct JSONPrint {
     diagnostics: Vec<DiagnosticItem>,
+    all_files: bool,
 }
 
 impl JSONPrint {
     /// Create a new JSON printer.
-    pub fn new(errors: Vec<DiagnosticItem>) -> Self {
+    ///
+    /// As in the other output modes, only the diagnostics of the base file
+    /// are listed unless ALL_FILES is set.
+    pub fn new(errors: Vec<DiagnosticItem>, all_files: bool) -> Self {
         Self {
             diagnostics: errors,
+            all_files,
         }
     }
 
@@ -237,9 +242,11 @@ impl JSONPrint {
 impl ErrorDisplay for JSONPrint {
     fn display_errors<T: FileReader>(&mut self, parser: &RVParser<T>) {
         // Convert the diagnostic items to JSON
+        let base_file = parser.reader.get_base_file();
         let sub: Vec<_> = self
             .diagnostics
             .iter()
+            .filter(|d| self.all_files || base_file.is_none_or(|base| d.file == base))
             .map(|d| self.wrap_item(parser, d))
             .collect();
 
